@@ -159,7 +159,28 @@ pub fn mutate_semantic(p: &mut Program, rng: &mut Rng) -> Option<String> {
         let ti = rng.usize(p.txs.len());
         let foreign = foreign_names(p);
         let tx = &mut p.txs[ti];
-        match rng.below(9) {
+        match rng.below(10) {
+            9 => {
+                // an asset named like a built-in function: its constructor calls read `tip_slot(5)`
+                if !p.assets.is_empty() {
+                    let k = rng.usize(p.assets.len());
+                    let old = p.assets[k].name.clone();
+                    let new = (*rng.pick(&["tip_slot", "min_utxo", "slot_to_time", "time_to_slot"])).to_string();
+                    if p.assets.iter().all(|a| a.name != new) {
+                        p.assets[k].name = new.clone();
+                        let mut used = false;
+                        for_each_expr_mut(p, &mut |e| {
+                            if let E::AssetCall(n, _) = e {
+                                if *n == old {
+                                    *n = new.clone();
+                                    used = true;
+                                }
+                            }
+                        });
+                        return Some(format!("asset-named-like-builtin{}", if used { "" } else { "-unused" }));
+                    }
+                }
+            }
             0 => {
                 // chain of locals of length 2..15 used in an output
                 let n = 2 + rng.usize(14);
